@@ -126,6 +126,8 @@ def check_preemph(case):
 
     n, dt, coeff, in_place = case["n"], case["dtype"], float(case["coeff"]), case["in_place"]
     vals = _base_signal(n, dt, case["seed"], case["magfrac"], case["kind"])
+    if case.get("swapped"):
+        vals = vals.astype(vals.dtype.newbyteorder())  # same values, non-native byte order (big-endian PCM read with np.fromfile)
     x, owner = _with_layout(vals, case["layout"])
     owner_before = owner.copy()
     pre = call("Preemphasize(coeff)", Preemphasize, coeff)
@@ -177,6 +179,8 @@ def check_preemph(case):
             fb = _cast_back([float(v) if i == 0 else float(v) - coeff * float(out_before[i - 1]) for i, v in enumerate(out_before.tolist())], dt)
             require(np.array_equal(again, fb, equal_nan=True), "result fed back through the same object: wrong values")
     labels = [dt, _lenclass(n), "in_place" if in_place else "copy", case["layout"]]
+    if case.get("swapped"):
+        labels.append("non-native byte order")
     if case.get("reuse"):
         labels.append("object-reused")
     if in_place and n and np.shares_memory(out, owner):
@@ -210,6 +214,7 @@ def preemph_cases():
             "layout": st.sampled_from(LAYOUTS),
             "reuse": st.sampled_from([False, False, True]),
             "other_after": st.booleans(),
+            "swapped": st.sampled_from([False, False, False, True]),
         }
     )
 
@@ -246,6 +251,8 @@ def check_dither(case):
     # (the ends of the integer range leave no room for noise: that signal kind is used with coeff 0 only - the identity)
     kind = case["kind"] if (case["kind"] != "extremes" or c == 0.0) else "noise"
     vals = _base_signal(n, dt, case["xseed"], case["magfrac"] * (0.85 if dt == "i8" else 0.9), kind)
+    if case.get("swapped"):
+        vals = vals.astype(vals.dtype.newbyteorder())
     x, owner = _with_layout(vals, case["layout"])
     owner_before = owner.copy()
 
@@ -320,6 +327,7 @@ def dither_cases():
             "in_place": st.booleans(),
             "layout": st.sampled_from(LAYOUTS),
             "other_after": st.booleans(),
+            "swapped": st.sampled_from([False, False, False, True]),
             "seed": st.integers(0, 2 ** 32 - 1),
             "seed2": st.integers(0, 2 ** 32 - 1),
         }
@@ -387,14 +395,14 @@ def clauses(tier):
         Clause(
             "preemph_recurrence", check_preemph,
             "non-trivial = length >= 2, coeff != 0 and a non-zero predecessor sample; distinct by the whole case",
-            preemph_cases, quick=5000, thorough=150000,
+            preemph_cases, quick=3800, thorough=150000,
             enumerate=preemph_enum, enum_name="preemph_grid_n0-8",
         ),
         Clause(
             "dither_relations", check_dither,
             "non-trivial = length >= 1 and coeff > 0; relations: linear in coeff, signal-independent, identity at 0, "
             "reproducible under numpy.random.seed, in_place equivalent, other seed => other noise (n >= 8)",
-            dither_cases, quick=3000, thorough=90000,
+            dither_cases, quick=2400, thorough=90000,
         ),
         Clause(
             "dither_statistics", check_dither_stats,
